@@ -186,18 +186,38 @@ pub fn c19(thorough: bool, extra: &mut Extra) -> Vec<CellDef> {
     v.push(cell::<P16E1>("P16E1/sample#after1".into(), with_prefixes(first_words(thorough), pre1.clone(), "4 refused-word prefixes"), 1, st.clone()));
     v.push(cell::<P16E1>("P16E1/sample#after2".into(), with_prefixes(first_words(false), pre2.clone(), "two-refused-word prefixes"), 1, st.clone()));
     // P32E2 draws two words
-    let seconds: Vec<u32> = vec![0, 0x3fff_ffff, 0x4000_0000, 0x7fff_ffff, 0x8000_0000, 0xbfff_ffff, 0xc000_0000, 0xffff_ffff, 0x1fff_ffff, 0x2000_0000, 0xdfff_ffff];
-    let fw = first_words(thorough);
-    let nf = fw.len;
-    let fk = fw.key;
-    let sec = seconds.clone();
-    let ns = sec.len() as u64;
-    let w1space = move || {
-        let sec = sec.clone();
-        Space::func(nf * ns, format!("({}) x {} second words (ends of each quarter of the u32 range, refused and accepted)", fw.desc, ns), move |i| (sec[(i % ns) as usize] as u128) << 32 | fk(i / ns))
+    // second words: both ends of each quarter of the u32 range, and a run of k leading ones / zeros for k = 1..8 with the
+    // rest zero / one (the top bits of a word decide a small range, the all-ones and all-zero tails its refusals)
+    let mut seconds: Vec<u32> = vec![0, 0x3fff_ffff, 0x4000_0000, 0x7fff_ffff, 0x8000_0000, 0xbfff_ffff, 0xc000_0000, 0xffff_ffff, 0x1fff_ffff, 0x2000_0000, 0xdfff_ffff];
+    for k in 1..=8u32 {
+        let ones = !(u32::MAX >> k);
+        seconds.extend([ones, ones | (u32::MAX >> (k + 1)), !ones, !ones & !(u32::MAX >> (k + 1))]);
+    }
+    seconds.sort();
+    seconds.dedup();
+    // every lattice first word x the whole second-word menu; the thorough tier adds every one of the 2^32 first words x
+    // the ends of the quarters
+    let w1space = |fw: Space, sec: Vec<u32>| {
+        let (nf, fk, ns) = (fw.len, fw.key, sec.len() as u64);
+        Space::func(nf * ns, format!("({}) x {} second words (ends of each quarter of the u32 range, runs of leading ones / zeros; refused and accepted)", fw.desc, ns), move |i| (sec[(i % ns) as usize] as u128) << 32 | fk(i / ns))
     };
-    v.push(cell::<P32E2>("P32E2/sample#w1".into(), w1space(), 2, st.clone()));
-    let firsts: Vec<u32> = vec![0, 1, 0x0f, 0x10, 0x1f, 0x20, 0x7fff_ffef, 0x8000_0000, 0xffff_ffcf, 0xffff_ffe0, 0xffff_ffef, 0xffff_ffff];
+    v.push(cell::<P32E2>("P32E2/sample#w1".into(), w1space(first_words(false), seconds.clone()), 2, st.clone()));
+    if thorough {
+        let base: Vec<u32> = vec![0, 0x3fff_ffff, 0x4000_0000, 0x7fff_ffff, 0x8000_0000, 0xbfff_ffff, 0xc000_0000, 0xffff_ffff, 0x1fff_ffff, 0x2000_0000, 0xdfff_ffff];
+        v.push(cell::<P32E2>("P32E2/sample#w1all".into(), w1space(first_words(true), base), 2, st.clone()));
+    }
+    // first words: the ends of the range, and a run of k low ones for every k (with bit 4, which the 2^27-wide draw
+    // refuses, also cleared): the produced fraction is then all ones below a leading zero run, where a rounding carry lives
+    let mut firsts: Vec<u32> = vec![0, 1, 0x0f, 0x10, 0x1f, 0x20, 0x7fff_ffef, 0x8000_0000, 0xffff_ffcf, 0xffff_ffe0, 0xffff_ffef, 0xffff_ffff];
+    for k in 6..=31u32 {
+        let run = (1u32 << k) - 1;
+        firsts.push(run & !0x10);
+        if k % 4 == 0 {
+            firsts.push(1u32 << k);
+        }
+    }
+    firsts.sort();
+    firsts.dedup();
     let sw = first_words(thorough);
     let nsw = sw.len;
     let sk = sw.key;
